@@ -200,16 +200,31 @@ class Traversal(collections.namedtuple('Traversal', 'pivot, members')):
         seen: set[tuple['flow.Node', int, port.Subscription]] = set()
         copies: dict['flow.Node', 'flow.Node'] = {}
         get(self.pivot)  # bootstrap for single-node segments that wouldn't iterate through the following loop
-        for pub, sub in (
-            (get(o)[i], get(s.node)[s.port])
-            for t in segments(self)
-            for o in t.members
-            for i, p in enumerate(o.output)
-            for s in p
-            if s.node in t.members and (o, i, s) not in seen and not seen.add((o, i, s))
-        ):
-            sub.subscribe(pub)
+        try:
+            for pub, sub in (
+                (get(o)[i], get(s.node)[s.port])
+                for t in segments(self)
+                for o in t.members
+                for i, p in enumerate(o.output)
+                for s in p
+                if s.node in t.members and (o, i, s) not in seen and not seen.add((o, i, s))
+            ):
+                sub.subscribe(pub)
+        except Exception as err:
+            self.discard(copies.values())
+            raise err
         return copies
+
+    @staticmethod
+    def discard(copies: typing.Iterable['flow.Node']) -> None:
+        """Withdraw the nodes of an abandoned copy (from their worker groups and from the port registry).
+
+        Args:
+            copies: Forked nodes to be withdrawn.
+        """
+        for node in copies:
+            if isinstance(node, atomic.Worker):
+                node.dispose()
 
 
 class Segment(tuple):
@@ -308,7 +323,11 @@ class Segment(tuple):
             (publisher,) = tail._input  # dangling Future tail is just a proxy of the publisher it is registered with
             tail = publisher._node
         copies = Traversal(self._head).copy(tail)
-        return Segment(copies[self._head], copies[tail])
+        try:
+            return Segment(copies[self._head], copies[tail])
+        except Exception as err:
+            Traversal.discard(copies.values())
+            raise err
 
     def follows(self, other: 'flow.Segment') -> bool:
         """Check this segment follows from the other.
